@@ -48,7 +48,7 @@ GRAMMARS = [
      {'cap': 3, 'maxch': 2, 'maxd': 2, 'maxn': 4, 'stack': ['all'],
       'reach': [('e.r == 1 && ts_n >= 2', 'tree with several nodes'), ('e.r == 0', 'no tree'), ('e.r == 3', 'foreign exception aborts the run')]}),
     ('nested', N0('named< 1, named< 2, %s >, %s >, %s' % (S0, S1, S2)),
-     {'all': ALL, 'middle_out': {100: 'store', 102: 'store'}, 'fold': {100: 'store', 101: 'fold', 102: 'store'}, 'discard': {100: 'store', 101: 'discard', 102: 'discard'}},
+     {'all': ALL, 'middle_out': {100: 'store', 102: 'store'}, 'fold': {100: 'store', 101: 'fold', 102: 'store'}, 'discard': {100: 'discard', 101: 'discard', 102: 'store'}},
      {'cap': 4, 'maxch': 2, 'maxd': 3, 'maxn': 4,
       'reach': [('e.r == 1 && ts_n >= 2 && ts_d[ts_n - 1] >= 1', 'nested nodes'), ('e.r == 0 && %s' % OK0, 'inner rule matched, outer rule failed: no tree')]}),
     ('backtrack', 'sor< seq< %s, %s >, %s >' % (N1, S1, N2),
@@ -141,7 +141,7 @@ def plan(ctx):
             big = total + 10
             for mode in ['tree'] + (['stack'] if tag in o.get('stack', []) else []):
                 qs.append(vf.Query('%s/%s/%s' % (gname, tag, mode), unit, h, unwind=max(n + 3, cap + 2, maxn + 2, maxch + 2, maxd + 3), mem_gb=o.get('mem_gb', 4),
-                                   unwindset=['c12_clear.0:%d' % big, 'c12_obs.0:%d' % big, 'c12_structure.0:%d' % big],
+                                   unwindset=['c12_setup.1:9', 'c12_clear.0:%d' % big, 'c12_obs.0:%d' % big, 'c12_structure.0:%d' % big],
                                    cbmc_defines={'VF_SPLIT': 1, 'V_' + mode: 1},
                                    bounds={'N': n, 'K': K, 'grammar': gtext, 'selector': sel if sel == 'all' else {str(k): v for k, v in sel.items()},
                                            'vector_capacity': cap, 'max_children': maxch, 'max_depth': maxd, 'max_nodes': maxn, 'checked': mode,
